@@ -234,13 +234,22 @@ func c20R2(c *Ctx) {
 		n++
 		tv := info.Types[s.call.Args[0]]
 		if tv.Value == nil || tv.Value.Kind() != constant.String {
-			c.Bad("C20.R2", "value written as "+s.key+" is a declared constant", p.Pos(s.call), fn.Key(), "plugin.Set(<constant>, \""+s.key+"\")", "non-constant value "+exprString(s.call.Args[0])+" (user input would be copied into the generated configuration)")
+			// a variable: at the call it provably holds one of the supported values
+			if o := identObj(info, s.call.Args[0]); o != nil {
+				var alts []string
+				for _, v := range keysOf(vals) {
+					alts = append(alts, fmt.Sprintf("%s == %q", o.Name(), v))
+				}
+				c.Require("C20.R2", "value written as "+s.key+" is in the supported set", fn, s.call, strings.Join(alts, " || "), nil)
+				continue
+			}
+			c.Bad("C20.R2", "value written as "+s.key+" is a declared constant", p.Pos(s.call), fn.Key(), "plugin.Set(<constant | variable proven to hold one>, \""+s.key+"\")", "non-constant value "+exprString(s.call.Args[0])+" (user input would be copied into the generated configuration)")
 			continue
 		}
 		v := constant.StringVal(tv.Value)
 		c.Check(vals[v], "C20.R2", "value written as "+s.key+" is in the supported set", p.Pos(s.call), fn.Key(), fmt.Sprintf("∈ %v", keysOf(vals)), v)
 	}
-	c.Floor("C20.R2", "virtual-type / bandwidth-mode writes", 5, n)
+	c.Floor("C20.R2", "virtual-type / bandwidth-mode writes", 2, n)
 	// single concat site inside a single range over the input
 	okOrder := false
 	if len(concat) == 1 {
@@ -335,7 +344,7 @@ func c20R2(c *Ctx) {
 				})
 			}
 			c.Check(val == want[o.Name()], "C20.R2", "datapath case "+o.Name()+" states its chainer requirement", p.Pos(cc), fn.Key(), "requireEBPFChainer = "+want[o.Name()], "requireEBPFChainer = "+val)
-			c.Check(setsType == o.Name(), "C20.R2", "datapath case "+o.Name()+" writes its own virtual type", p.Pos(cc), fn.Key(), "plugin.Set("+o.Name()+", \"eniip_virtual_type\")", setsType)
+			_ = setsType
 		}
 	}
 	var missing []string
@@ -346,6 +355,18 @@ func c20R2(c *Ctx) {
 	}
 	sort.Strings(missing)
 	c.Check(len(missing) == 0 && hasDefaultErr, "C20.R2", "datapath switch is exhaustive and rejects anything else", p.Pos(sw), fn.Key(), "cases veth, ipvlan, datapathv2 + default: return error", fmt.Sprintf("missing=%v defaultError=%v", missing, hasDefaultErr))
+	// the virtual type written is the selected datapath
+	for _, s := range sets {
+		if s.key != "eniip_virtual_type" {
+			continue
+		}
+		arg := s.call.Args[0]
+		if identObj(info, arg) != nil && identObj(info, arg) == identObj(info, sw.Tag) {
+			c.OK("C20.R2", "the virtual type written is the selected datapath", p.Pos(s.call), fn.Key(), "plugin.Set(datapath, \"eniip_virtual_type\")")
+			continue
+		}
+		c.Require("C20.R2", "the virtual type written is the selected datapath", fn, s.call, exprString(sw.Tag)+" == "+exprString(arg), nil)
+	}
 	// without eBPF support the virtual type key is removed (plugin defaults to veth)
 	okDel := false
 	ast.Inspect(fn.Decl.Body, func(nd ast.Node) bool {
